@@ -294,4 +294,12 @@ theorem Coords.WF_linmap (c : Coords) (M : List (List Rat)) (hM : M ≠ []) : (c
   | nil => exact absurd rfl hM
   | cons r M => simp [rect]
 
+/-- the points of two unstructured columns given as maps over one list -/
+theorem pointsOfCols_two {α : Type} (xs : List α) (f g : α → Rat) :
+    pointsOfCols xs.length [xs.map f, xs.map g] = xs.map fun p => [f p, g p] := by
+  simp only [pointsOfCols]
+  induction xs with
+  | nil => simp
+  | cons x xs ih => simp [List.replicate_succ, ih]
+
 end HcipyVerif.Grid
